@@ -780,7 +780,9 @@ def make_world(layout: str, origin_vertex: bool = False) -> dict:
          'phys_kv': phys_kv, 'solids': [b'VPHY\x00\x01solid-one'.hex(), b'\xff\x00\xfe'.hex()]},
         {'cls': 1, 'mins': [-8.0, -8.0, 0.0], 'maxes': [8.0, 8.0, 32.0], 'origin': [0.0, 0.0, 16.0], 'node': 1, 'faces': [2],
          'phys_kv': None, 'solids': []},
-        None, None]
+        {'cls': 2, 'mins': [0.0, 0.0, 0.0], 'maxes': [1.0, 1.0, 1.0], 'origin': [0.0, 0.0, 0.0], 'node': 1, 'faces': [],
+         'phys_kv': [['solid', [['index', '0'], ['surfaceprop', 'metal']]], ['editparams', [['concave', '1']]]], 'solids': []},
+        None]
     w['cubemaps'] = [{'origin': [16, -32, 72], 'size': 0}, {'origin': [-500, 0, 1], 'size': 7}]
 
     def overlay(oid, ti, faces, order, fade, levels):
@@ -1164,6 +1166,16 @@ def encode_world(world: dict, layout: str) -> tuple[dict[int, bytes], dict[bytes
     return lumps, game
 
 
+BIG_RAW_LUMP = 63     # an unstructured lump: carries the long-distance-repeat payload in the compressed variants
+
+
+def big_repeat_block() -> bytes:
+    """12 KiB whose LZMA stream is about 3 KiB and refers back 9 KiB: 3000 incompressible bytes, 6000 zeros, the same
+    3000 bytes again (a decoder window smaller than the distance cannot decode it)."""
+    blk = b''.join(hashlib.sha256(b'big%d' % k).digest() for k in range(94))[:3000]
+    return blk + bytes(6000) + blk
+
+
 def synth_file(layout: str, compress: str = 'none', game_comp: bool = False, origin_vertex: bool = False,
                world: Optional[dict] = None, broken: Optional[str] = None) -> tuple[bytes, dict]:
     """A fully populated BSP of the given layout.  compress: 'none' | 'one' | 'all' (LZMA on one / every
@@ -1184,11 +1196,13 @@ def synth_file(layout: str, compress: str = 'none', game_comp: bool = False, ori
                 ver = 1
         else:
             data, ver = filler(i, rich=compress != 'all')
+            if compress != 'none' and i == BIG_RAW_LUMP:
+                data = big_repeat_block()
         if i == L.ENTITIES.value:
             ver = 0  # the L4D2 header probe looks at this field
             if broken == 'ents':
                 data = data.rstrip(b'\x00') + b'}\n}\n'     # too many closing brackets: the entity parser raises on this
-        comp = compress == 'all' or (compress == 'one' and i == L.LEAFS.value)
+        comp = compress == 'all' or (compress == 'one' and i in (L.LEAFS.value, BIG_RAW_LUMP))
         lumps[i] = (data, ver, comp)
     sprp_ver = SPV[lay['sprp']].version
     if broken == 'sprp':
